@@ -868,6 +868,16 @@ def gen_schema_inp_lean(wntr, rows, kw):
     out = ["-- GENERATED by harness/props/c12.py from wntr/epanet/io.py (ast).  Do not edit.",
            "-- `fields` / `outside` are the hand-written specification of harness/props/c12.py carried over verbatim.",
            "import WntrModel.Model.InpText", "namespace Wntr.InpSchema.Gen", "open Wntr.InpSchema", ""]
+    strings = []
+
+    def sid(x):
+        if x not in strings:
+            strings.append(x)
+        return strings.index(x)
+
+    def ids(sec, name, toks):
+        return "(%d, %d, [%s])" % (sid(sec), sid(name), ", ".join(str(sid(t)) for t in toks))
+
     uniq = []
     for r in rows:
         if r["conv"]:
@@ -879,21 +889,24 @@ def gen_schema_inp_lean(wntr, rows, kw):
                 "true" if r["dw"] else "false", _ls(r["order"]), "true" if r["mass"] else "false")
         else:
             cv = "none"
-        t = "  { sec := %s, write := %s, name := %s, conv := %s, fmt := %s, toks := %s, const := %s }" % (
+        toks = [x for x in r["ctx"].split("|") if x]
+        t = "  { sec := %s, write := %s, name := %s, conv := %s, fmt := %s, toks := %s, const := %s, ids := %s }" % (
             _ls(r["sec"]), "true" if r["dir"] == "w" else "false", _ls(r["name"]), cv, _ls(r["fmt"]),
-            _ll([x for x in r["ctx"].split("|") if x]), "true" if r["const"] else "false")
-        if t not in uniq:
-            uniq.append(t)
-    names = []
-    for i in range(0, len(uniq), 60):
-        nm = "rows%d" % (i // 60)
-        names.append(nm)
-        out.append("def %s : List Row := [\n%s]\n" % (nm, ",\n".join(uniq[i:i + 60])))
-    out.append("def rows : List Row := %s\n" % " ++ ".join(names))
+            _ll(toks), "true" if r["const"] else "false", ids(r["sec"], r["name"], toks))
+        if t not in [u[1] for u in uniq]:
+            uniq.append((r, t))
+    out.append("def table : Table := [")
+    secs = []
+    for (r, t) in uniq:
+        if r["sec"] not in secs:
+            secs.append(r["sec"])
+    out.append(",\n".join("  (%d, [\n%s])" % (sid(sec), ",\n".join("  " + t for (r, t) in uniq if r["sec"] == sec)) for sec in secs))
+    out.append("]\n")
+    out.append("def rows : List Row := table.all\n")
     fl = []
     for (cls, key, wsec, w, wt, rsec, r, rt) in FIELDS:
-        fl.append("  { cls := %s, key := %s, wsec := %s, w := %s, wtoks := %s, rsec := %s, r := %s, rtoks := %s }" % (
-            _ls(cls), _ls(key), _ls(wsec), _ls(w), _ll(wt), _ls(rsec), _ls(r), _ll(rt)))
+        fl.append("  { cls := %s, key := %s, wsec := %s, w := %s, wtoks := %s, rsec := %s, r := %s, rtoks := %s, wids := %s, rids := %s }" % (
+            _ls(cls), _ls(key), _ls(wsec), _ls(w), _ll(wt), _ls(rsec), _ls(r), _ll(rt), ids(wsec, w, wt), ids(rsec, r, rt)))
     names = []
     for i in range(0, len(fl), 60):
         nm = "fields%d" % (i // 60)
@@ -901,7 +914,8 @@ def gen_schema_inp_lean(wntr, rows, kw):
         out.append("def %s : List Field := [\n%s]\n" % (nm, ",\n".join(fl[i:i + 60])))
     out.append("def fields : List Field := %s\n" % " ++ ".join(names))
     out.append("def outside : List (String × String) := [\n%s]\n" % ",\n".join("  (%s, %s)" % (_ls(c), _ls(k)) for (c, k) in sorted(OUTSIDE)))
-    out.append("def readerOnly : List (String × String × List String) := [%s]\n" % ", ".join("(%s, %s, %s)" % (_ls(a), _ls(b), _ll(c)) for a, b, c in READER_ONLY))
+    out.append("def readerOnly : List (Nat × Nat × List Nat) := [%s]\n" % ", ".join(ids(a, b, c) for a, b, c in READER_ONLY))
+    out.append("/-- the string numbering used in `ids` -/\ndef strings : List String := %s\n" % _ll(strings))
     od = wntr.network.WaterNetworkModel().options.to_dict()
     out.append("/-- keys of `Options.to_dict()` per group (reflection) -/")
     out.append("def optionKeys : List (String × List String) := [\n%s]\n" % ",\n".join(
